@@ -77,6 +77,11 @@ def call_function(ex, fi, args, kwargs, st, k, ctl, node):
         return apply_contract(ex, c, fi, args, kwargs, st, k, ctl, node)
     if q in specs.inline or (fi.parent is not None):
         return inline_call(ex, fi, args, kwargs, st, k, ctl, node)
+    if not st.spec:
+        # a helper without a contract (e.g. introduced by a refactoring): executed through its real body;
+        # recorded, so that the evidence says which callees were not modular
+        ex.cx.notes.append("auto-inlined (no contract): %s" % q)
+        return inline_call(ex, fi, args, kwargs, st, k, ctl, node)
     raise Unsupported("call of %s: no contract and not declared inline" % q, node)
 
 
@@ -192,6 +197,8 @@ def havoc_modifies(ex, c, env, st_pre, st):
                     raise Unsupported("modifies: unknown field %s" % f)
                 key = (d[0], f)
                 ft = d[1]
+            if ft == T.PYOBJ:
+                continue
             arr = ex.heap_term(st, key, ft)
             nv = ex.cx.fresh("hv_" + f.strip("<>_"), ft)
             new = "(store %s %s %s)" % (arr, objv.t, nv.t)
@@ -312,7 +319,7 @@ def apply_contract(ex, c, fi, args, kwargs, st, k, ctl, node):
     ps = post.copy(env=penv, spec=True, old=pre, fn=fi)
     cur = getattr(ex, "current_contract", None)
     wanted = cur.uses.get(c.target) if (cur is not None and not st.spec) else None
-    facts = [ex.spec_bool(e, ps) for n_, e in c.ensures if wanted is None or n_ in wanted]
+    facts = [ex.spec_bool(e, ps) for n_, e in c.ensures if (wanted is None or n_ in wanted) and n_ not in c.internal]
     if st.spec:
         # the caller keeps no state in specification mode: the facts about the fresh result become
         # global assumptions (only possible when no bound variable occurs in them)
